@@ -1,5 +1,7 @@
 #!/bin/bash
 # usage: eval_seed.sh <seed id e.g. C08> <property to check> [VERIF_ONLY regex]
+# (waves 2-4 used copies of this script with the paths /tmp/wt<N>-<id>, /tmp/seed<N>-<id> and the
+#  destination /verif/seeded/<id><b|c|d>)
 # 1. confirms in the sub-agent's scratch worktree: suite passes with the change, demo fails with it and passes without
 # 2. applies the patch to /repo, runs the check, reverts /repo
 id=$1; prop=$2; only=$3
